@@ -39,7 +39,7 @@ def source(enum, variants, rule, tag, content, flavour="plain", spelling="merged
             attrs.append(f"#[serde({', '.join(g)})]")
     body = ""
     for ident, ren, kind in variants:
-        if ren:
+        if ren is not None:
             body += '    #[serde(rename = "%s")]\n' % ren.replace("\\", "\\\\").replace('"', '\\"')
         if kind == "unit":
             body += f"    {ident},\n"
@@ -51,7 +51,7 @@ def source(enum, variants, rule, tag, content, flavour="plain", spelling="merged
     return f"#[typeshare]\n" + "".join(a + "\n" for a in attrs) + f"pub enum {name}{gen} {{\n{body}}}\n"
 
 
-RENAME_TEXT = {"$a_quote_b": '$a"b'}          # constants of MC_C02!RenameOf whose name is not the text itself
+RENAME_TEXT = {"$a_quote_b": '$a"b', "empty": ""}          # constants of MC_C02!RenameOf whose name is not the text itself
 
 
 def case_variants(c):
@@ -149,7 +149,7 @@ def run_batch(chk, batch, judge_now):
                 judge(chk, lang, enum, rule, variants, tag, content, o, exp, desc)
             if o is not None:
                 events.append({"lang": lang.split("+")[0], "enum": enum, "rule": rule, "tag": tag, "content": content,
-                               "variants": [{"ident": list(v[0]), "rename": list(v[1] or "")} for v in variants],
+                               "variants": [{"ident": list(v[0]), "rename": ["<none>"] if v[1] is None else list(v[1])} for v in variants],
                                "wires": [list(w) for w in o["wires"]], "tag_obs": o["tag_obs"], "content_obs": o["content_obs"],
                                "has_payload": any(v[2] != "unit" for v in variants)})
                 meta.append((lang, enum, rule, variants, tag, content, o, desc))
